@@ -1,6 +1,10 @@
 """Which properties are claimed, and with what level; the rest with reasons.
 MANIFEST.json is generated from this file by tools/gen_manifest.py."""
 
+MODULES = {
+    "C17": "harness.c17_gae",
+}
+
 CLAIMED = {}
 
 NOT_APPLICABLE = {
